@@ -130,6 +130,13 @@ Definition client_output (async : bool) (d : decision) : option client_return :=
   | Rejected _ => None
   end.
 
+(* Service.has_lro: the switch of every transport template (operations_client property, _operations_client slot,
+   operations_v1 import).  It looks at every method of the service, internal ones included (selective generation with
+   generate_omitted_as_internal turns omitted rpcs into internal _methods of the client, which are wrapped like the others). *)
+Record svc_method := mkSM { sm_internal : bool; sm_decision : decision }.
+Definition is_lro (d : decision) : bool := match d with Lro _ _ => true | _ => false end.
+Definition has_operations_client (ms : list svc_method) : bool := existsb (fun m => is_lro (sm_decision m)) ms.
+
 (* ------------------------------------------------------------------ contract: the operation future *)
 (* google.protobuf.Any *)
 Record any := mkAny { a_url : string; a_payload : string }.
